@@ -53,6 +53,11 @@ def conc(model, v, depth=0):
         n = num(model, v.length) if is_z3(v.length) else v.length
         if not isinstance(n, int) or n < 0:
             return {"__len__": str(n)}
+        if isinstance(v.elem, str) and v.elem == "Sort(QRow)":
+            from .nplib import tbl_col
+            rows = [v.get(i) for i in range(min(n, MAXLEN))]
+            return {"__tbl__": [[num(model, tbl_col(r, j))
+                                 for j in (0, 1, -1)] for r in rows]}
         out = [conc(model, v.get(i), depth + 1) for i in range(min(n, MAXLEN))]
         return out
     if isinstance(v, SymStruct):
